@@ -1,6 +1,9 @@
 package interp
 
-import "go/types"
+import (
+	"go/token"
+	"go/types"
+)
 
 type hashable interface {
 	hash(t types.Type) int
@@ -23,6 +26,12 @@ func makeMap(kt types.Type, reserve int64) value {
 }
 
 func (m *hashmap) keyEq(a, b value) bool {
+	_, sa := a.(symstr)
+	_, sb := b.(symstr)
+	if sa || sb {
+		// string keys with symbolic bytes (e.g. hex of a symbolic root): alias case-split
+		return decideV(symStrBinop(token.EQL, a, b))
+	}
 	if hasSym(a) || hasSym(b) {
 		return EX.decide(symEq(m.keyType, a, b))
 	}
